@@ -323,36 +323,7 @@ SPEC_BLOCK = {
 }
 
 
-def _assume_false(dnf, pred):
-    """dnf restricted to the assignments on which every atom matching pred is false"""
-    out = set()
-    for c in dnf:
-        keep = True; lits = []
-        for d in c:
-            if d[0] == 'A' and pred(d[1]):
-                if d[2]: keep = False; break
-                continue
-            lits.append(d)
-        if keep: out.add(frozenset(lits))
-    return simplify(frozenset(out)) if out else FALSE
-
-
-class _View:
-    """a Table seen through (a) VLC table operands by name and (b) an assumption that some atoms are false"""
-    def __init__(self, T, pred=None):
-        self.T = T; self.pred = pred
-    def __getattr__(self, k): return getattr(self.T, k)
-    def _c(self, d): return _assume_false(d, self.pred) if self.pred else d
-    def read_rows(self):
-        out = []
-        for k, callee, ws, c in self.T.read_rows():
-            ws2 = [(re.sub(r'^index\((\w+), RangeFull\)$', r'\1', w), self._c(cc)) for w, cc in ws]
-            out.append((k, callee, [(w, cc) for w, cc in ws2 if cc], self._c(c)))
-        return out
-    def return_rows(self, items=None):
-        rows = self.T.return_rows(items)
-        return {p: {v: self._c(c) for v, c in d.items() if self._c(c)} for p, d in rows.items()}
-    def value_rows(self, items): return self.return_rows(items)
+_View = c06.View
 
 
 def _table_check(ck, F, name, spec, what, pred=None):
@@ -393,9 +364,42 @@ def rule_syntax(ck, F, which):
         name = B + 'decode_block::{closure#0}'
         spec = dict(SPEC_BLOCK); spec['opaque_names'] = ('tcoef',)
         T, V, rn = _table_check(ck, F, name, spec, 'decode_block', pred=_forbidden_level); n += T is not None
-        if T is not None: _block_loop(ck, F, name, T, V, rn)
+        if T is not None:
+            _block_loop(ck, F, name, T, V, rn)
+            _rejected_levels(ck, F, name, T)
     ck.count('macroblock-layer decision tables', n)
     ck.floor('macroblock-layer decision tables', n, len(which))
+
+
+def _rejected_levels(ck, F, name, T):
+    """The atoms assumed false above compare the escape LEVEL with a constant and reject it.  That is only harmless if the constant is not a
+    codable level of the width it is compared under: evaluate each such constant with i16 semantics and require it outside +-1..2^(w-1)-1."""
+    b = F.body(name)
+    atoms = set()
+    def walk(dnf):
+        for c in dnf:
+            for d in c:
+                if d[0] == 'A' and _forbidden_level(d[1]): atoms.add(d[1])
+    for k, callee, ws, c in T.read_rows():
+        walk(c)
+        for _, cc in ws: walk(cc)
+    for pth, d in T.return_rows().items():
+        for v, c in d.items(): walk(c)
+    for v, c in T.error_rows().items(): walk(c)
+    def wrap16(x):
+        x &= 0xFFFF
+        return x - 0x10000 if x & 0x8000 else x
+    bad = []; seen = []
+    for a in sorted(atoms):
+        m = re.match(r'^(?:Eq|Ne)\(r\d+, (Shl|Shr)\((-?\d+), (\d+)\)\)$', a)
+        if not m: bad.append('unrecognised level test `%s`' % a); continue
+        op, c0, w = m.group(1), int(m.group(2)), int(m.group(3))
+        v = wrap16(c0 << w) if op == 'Shl' else wrap16(c0) >> w
+        seen.append((w, v))
+        if w not in (7, 8, 11): bad.append('`%s`: a LEVEL of width %d does not exist' % (a, w))
+        elif 1 <= abs(v) <= (1 << (w - 1)) - 1: bad.append('`%s` rejects the codable %d-bit level %d' % (a, w, v))
+    if bad: ck.violation('T', 'T : decode_block : rejected levels', where_of(b), 'the escape branch rejects levels it must accept: ' + '; '.join(bad))
+    else: ck.ok('T', 'decode_block: the level constants rejected in the escape branch (%s as (width, value)) are not codable levels of their width (+-1..2^(w-1)-1 all accepted)' % sorted(set(seen)), where_of(b))
 
 
 def _block_loop(ck, F, name, T, V, rename):
